@@ -5,7 +5,8 @@
       V3 … tagV tagP tagX   → `<V> <P> <X>`     value tag, prop shorthand, prefix tag on the same configuration
       E  … tag              → `<V>`             one value tag (expressions, validation)
       Q  … tag              → `<V>`             one prefix tag
-    the kind may carry harness flags after a `+` (`V3+p`, `E+d`, …), ignored here
+    the kind may carry harness flags after a `+` (`V3+p`, `E+d`, `V3+y2f`, `E+e2`, …), ignored here: they say how the
+    harness builds the holder and writes the document, none of them changes the configuration or the tags
 
     <kind> <type> <cfg> <evals> <verdicts> <set> <gate> <tag>…      two creations of the same holder
       R3 / RE / RQ  as V3 / E / Q; the holder is created under cfg — that creation fails —, then the keys of
@@ -356,9 +357,38 @@ def handleHS (mode cfgS opsS eagerS lateS : String) : String :=
     | _, _ => "panic"
   | _, _, _, _ => "bad-line"
 
+/-! ### a component edits the value it was given (HM)
+
+    HM <mode> <cfg> <muts> <eager> <late>
+      The eager holder is populated under the document; the owner of its fields (the harness, or the component's own
+      Init) then edits the bound values — `muts`, a matter of the harness.  A bound value is the field's OWN value
+      (`FVal`, built by the decoder): editing it is no operation on the binder.  The late holder — fresh properties — is
+      populated under the same binder: `Ioc.Value.populateLater` with no Set at all.
+      → `<start> <eager field as bound>… <second> <late field>…` -/
+def handleHM (cfgS eagerS lateS : String) : String :=
+  match pVal cfgS.toList, pHolder eagerS, pHolder lateS with
+  | some (.map cfgM, []), some ef, some lf =>
+    match holderProps ef, holderProps lf with
+    | some es, some ls =>
+      let b0 : Binder := ⟨[], cfgM⟩
+      let ev := mkEval []
+      let vd := mkValidate [] true
+      let r1 := populateAll goJson ev vd b0.get stageOrder es
+      match r1.2 with
+      | some e => showErr (some e)
+      | none =>
+        let r2 := populateLater goJson ev vd b0 [] ls
+        "ok " ++ fieldsOf r1.1 ++ " " ++
+          (match r2.2 with
+            | some e => showErr (some e)
+            | none => "ok " ++ fieldsOf r2.1)
+    | _, _ => "panic"
+  | _, _, _ => "bad-line"
+
 def handle (line : String) : String :=
   match line.splitOn " " with
   | ["HS", mode, cfgS, opsS, eagerS, lateS] => handleHS mode cfgS opsS eagerS lateS
+  | ["HM", _, cfgS, _, eagerS, lateS] => handleHM cfgS eagerS lateS
   | kind :: tyS :: cfgS :: evS :: vdS :: tags =>
     if kind = "R3" || kind = "RE" || kind = "RQ" then
       match pTy tyS.toList, pVal cfgS.toList, pEvals evS, pVerdicts vdS with
